@@ -150,12 +150,23 @@ type Reader struct {
 	err          error
 	lastByte     int // last byte read for UnreadByte; -1 means invalid
 	lastRuneSize int // size of last rune read for UnreadRune; -1 means invalid
+	// alignedReads: the underlying reader is only ever asked to fill the whole (block aligned) buffer
+	alignedReads bool
 }
 
 const maxConsecutiveEmptyReads = 100
 
 func NewReaderBuf(rd io.Reader, buf []byte) *Reader {
 	r := new(Reader)
+	r.reset(buf, rd)
+	return r
+}
+
+// NewAlignedReaderBuf is for files opened with direct I/O: every read of the underlying reader goes into the whole
+// given buffer (which the caller aligned), never into a slice of the caller or into a part of the buffer.
+func NewAlignedReaderBuf(rd io.Reader, buf []byte) *Reader {
+	r := new(Reader)
+	r.alignedReads = true
 	r.reset(buf, rd)
 	return r
 }
@@ -178,6 +189,7 @@ func (b *Reader) reset(buf []byte, r io.Reader) {
 		rd:           r,
 		lastByte:     -1,
 		lastRuneSize: -1,
+		alignedReads: b.alignedReads,
 	}
 }
 
@@ -238,7 +250,7 @@ func (b *Reader) Read(p []byte) (n int, err error) {
 		if b.err != nil {
 			return 0, b.readErr()
 		}
-		if len(p) >= len(b.buf) {
+		if len(p) >= len(b.buf) && !b.alignedReads {
 			// Large read, empty buffer.
 			// Read directly into p to avoid copy.
 			n, b.err = b.rd.Read(p)
